@@ -1,12 +1,12 @@
 package main
 
 import (
-	"runtime/debug"
-	"runtime"
-	"golang.org/x/tools/go/ssa"
 	"flag"
 	"fmt"
+	"golang.org/x/tools/go/ssa"
 	"os"
+	"runtime"
+	"runtime/debug"
 	"sort"
 	"strconv"
 	"strings"
